@@ -597,7 +597,8 @@ def run(ctx):
         bins[i].append(j)
         load[i] += j['cost']
     bins = [b for b in bins if b]
-    t_end = ctx.t0 + ctx.deadline_s - (25 if ctx.quick else 60)
+    # the tier deadline includes the build; after a slow (contended) build still explore for a minimum window
+    t_end = max(ctx.t0 + ctx.deadline_s - (25 if ctx.quick else 60), time.time() + 90)
 
     def worker(i, items):
         return run_shard(ctx, i, items[0], t_end)
